@@ -15,7 +15,7 @@ Proof. exact localized_keeps_overlapping. Qed.
 Print Assumptions C15_localized_keeps_exactly_overlapping_choices.
 
 Theorem C15_all_variants : forall ms s,
-  wf_space ms -> member ms s -> (forall c, In c (choices_list ms) -> cend c <= zlen s) ->
+  wf_choices ms -> member ms s -> (forall c, In c (choices_list ms) -> cend c <= zlen s) ->
   multichoices ms <> [] ->
   exists vs, all_variants ms s = Some vs /\
     NoDup vs /\
@@ -27,14 +27,14 @@ Proof. exact all_variants_spec. Qed.
 Print Assumptions C15_all_variants.
 
 Theorem C15_all_variants_only_inside_span : forall ms s vs a b t i,
-  wf_space ms -> member ms s -> (forall c, In c (choices_list ms) -> cend c <= zlen s) ->
+  wf_choices ms -> member ms s -> (forall c, In c (choices_list ms) -> cend c <= zlen s) ->
   all_variants ms s = Some vs -> choices_span ms = Some (a, b) -> In t vs ->
   0 <= i -> ~ (a <= i < b) -> nth_error t (Z.to_nat i) = nth_error s (Z.to_nat i).
 Proof. exact all_variants_outside_span. Qed.
 Print Assumptions C15_all_variants_only_inside_span.
 
 Theorem C15_random_mutations : forall ms n s stream s' r',
-  wf_space ms -> member ms s -> (forall c, In c (choices_list ms) -> cend c <= zlen s) ->
+  wf_choices ms -> member ms s -> (forall c, In c (choices_list ms) -> cend c <= zlen s) ->
   0 <= n ->
   apply_random_mutations ms n s (mkR stream []) = Some (s', r') ->
   valid_run stream r' ->
@@ -55,7 +55,7 @@ Proof. exact random_variant_spec. Qed.
 Print Assumptions C15_random_variant_differs.
 
 Theorem C15_constrain_sequence : forall ms s r s' r',
-  wf_space ms -> (forall c, In c (choices_list ms) -> cend c <= zlen s) ->
+  wf_choices ms -> (forall c, In c (choices_list ms) -> cend c <= zlen s) ->
   constrain_sequence ms s r = COk s' r' ->
   member ms s' /\ zlen s' = zlen s /\
   (forall i, 0 <= i -> nth_error s' (Z.to_nat i) <> nth_error s (Z.to_nat i) ->
